@@ -23,18 +23,19 @@ SPEC_FUNCS = {
 FILTER = "utils::filter_pattern::FilterPattern"
 
 
-def table(R, ctx):
+def table(R, ctx, rid="C20.table"):
     """Decision table of both filter predicates by finite-domain evaluation (sa/peval.py)."""
     import itertools
     from .. import peval
     from ..peval import Struct, UNKNOWN
-    rid = "C20.table"
     lib = ctx.lib
     R.rule(rid, "decision table of the two filter predicates (Configuration::should_apply_rule, RuleMetadata::should_apply), extracted by "
                 "evaluating their typed tree on every apply/skip list state built from a matching pattern `m` and a non-matching pattern `n` "
                 "(lists of length 0..2 in both orders: 7 x 7 states): the answer is (apply list empty OR some apply pattern matches) AND no "
-                "skip pattern matches. Which of the two Vec<FilterPattern> fields is the apply list is inferred (exactly one assignment must "
-                "satisfy the table), so renaming fields or restructuring the predicate is no alarm")
+                "skip pattern matches -- whatever else the owner holds: the table is evaluated with the other fields abstract and, for the "
+                "configuration, with a rule list that is empty, holds a rule accepting the file, or holds only a rule refusing it (a file "
+                "no rule wants is still processed and written). Which of the two Vec<FilterPattern> fields is the apply list is inferred "
+                "(exactly one assignment must satisfy the table), so renaming fields or restructuring the predicate is no alarm")
     states = [[]] + [[x] for x in "mn"] + [list(t) for t in itertools.product("mn", repeat=2)]
 
     def pat(x):
@@ -44,6 +45,15 @@ def table(R, ctx):
         if args and isinstance(args[0], Struct) and args[0].adt == "#FilterPattern":
             if fname == "matches" and len(args) == 2:
                 return args[0].fields["matches"]
+            return UNKNOWN
+        if args and isinstance(args[0], Struct) and args[0].adt == "#Rule":
+            # an abstract rule: its metadata answers its own filter question as the scenario says
+            if fname == "metadata":
+                return Struct("#RuleMetadata", {"accepts": args[0].fields["accepts"]})
+            return UNKNOWN
+        if args and isinstance(args[0], Struct) and args[0].adt == "#RuleMetadata":
+            if fname == "should_apply":
+                return args[0].fields["accepts"]
             return UNKNOWN
         return NotImplemented
     results = {}
@@ -61,15 +71,20 @@ def table(R, ctx):
             wrong = []
             for A in states:
                 for S in states:
-                    pe = peval.PEval(lib, ctx.an, hook)
-                    selfv = Struct(owner, {apply_f: [pat(x) for x in A], skip_f: [pat(x) for x in S]})
-                    try:
-                        v = pe.call_fn(fn, [selfv, Struct("#Path", {})])
-                    except peval.OutOfFuel:
-                        v = UNKNOWN
-                    want = (not A or "m" in A) and "m" not in S
-                    if v is not want:
-                        wrong.append(("apply=[%s] skip=[%s]" % (",".join(A), ",".join(S)), want, v, pe.unknown_reasons[:1]))
+                    rule_fields = [f["name"] for v_ in (adt["variants"] if adt else []) for f in v_["fields"] if "dyn rules::Rule" in f.get("tys", "") and "Vec" in f.get("tys", "")]
+                    for rules_label, rules in ((("no rules", []), ("a rule accepting the file", [True]), ("only a rule refusing the file", [False])) if rule_fields else (("", None),)):
+                        pe = peval.PEval(lib, ctx.an, hook)
+                        over = {apply_f: [pat(x) for x in A], skip_f: [pat(x) for x in S]}
+                        if rules is not None:
+                            over[rule_fields[0]] = [Struct("#Rule", {"accepts": r}) for r in rules]
+                        selfv = Struct(owner, over)
+                        try:
+                            v = pe.call_fn(fn, [selfv, Struct("#Path", {})])
+                        except peval.OutOfFuel:
+                            v = UNKNOWN
+                        want = (not A or "m" in A) and "m" not in S
+                        if v is not want:
+                            wrong.append(("apply=[%s] skip=[%s]%s" % (",".join(A), ",".join(S), (" with " + rules_label) if rules_label else ""), want, v, pe.unknown_reasons[:1]))
             verdicts[(apply_f, skip_f)] = wrong
         best = min(verdicts.items(), key=lambda kv: len(kv[1]))
         (apply_f, skip_f), wrong = best
